@@ -184,8 +184,12 @@ def run(check):
             continue
         res = o["result"]
         if res.get("parse_err") or res.get("prepare_err"):
-            if cell:
-                table[cell] = "rejected: " + (res.get("parse_err") or res.get("prepare_err"))[:150]
+            err = res.get("parse_err") or res.get("prepare_err")
+            if cell and "failed to create scope for inferred type" in err:
+                # an output inferred from a ref-typed plugin field cannot be represented; Prepare refuses it (it used to panic: fixed C11 finding)
+                table[cell] = "blocked-by-known-finding: " + err[:120]
+            elif cell:
+                table[cell] = "rejected: " + err[:150]
             continue
         vs = [v for v in mon.monitor_run(case, res, sem) if v.prop in ("C08", "C03", "C02")]
         for e in res.get("events") or []:
